@@ -230,6 +230,16 @@ Fixpoint expand_children (en : node -> result item) (raise_missing : bool)
       end
   end.
 
+(* Pattern._first_segment: an empty pattern (the prefix of a pattern starting
+   with a wildcard) and a leading wildcard are relative to the root; otherwise
+   the expansion of the first node (os.path.isabs of a non-str raises TypeError) *)
+Definition first_segment (en : node -> result item) (ns : list node) : result str :=
+  match ns with
+  | [] => Ok []
+  | NStar _ :: _ | NStarstar _ _ :: _ => Ok []
+  | n0 :: _ => do i <- en n0; item_str i
+  end.
+
 (* Pattern.expand; [en rm] is Node.expand(env, raise_missing=rm) for this env *)
 Definition expand_with (en : bool -> node -> result item) (raise_missing : bool)
            (p : pattern) : result str :=
@@ -237,13 +247,8 @@ Definition expand_with (en : bool -> node -> result item) (raise_missing : bool)
     match p_root p with
     | None => Ok []
     | Some r =>
-        match p_nodes p with
-        | [] => Raise IndexError                         (* self[0] *)
-        | n0 :: _ =>
-            do i <- en false n0;
-            do first_seg <- item_str i;                  (* os.path.isabs of a non-str *)
-            Ok (if starts_with [c_slash] first_seg then [] else r)
-        end
+        do first_seg <- first_segment (en false) (p_nodes p);
+        Ok (if starts_with [c_slash] first_seg then [] else r)
     end;
   do items <- expand_children (en true) raise_missing (p_nodes p);
   do body <- join_items items;
@@ -371,13 +376,8 @@ Definition rx_pattern_with (en : node -> result item) (rn : node -> cst -> resul
     match p_root p with
     | None => Ok []
     | Some r =>
-        match p_nodes p with
-        | [] => Raise IndexError
-        | n0 :: _ =>
-            do i <- en n0;
-            do first_seg <- item_str i;
-            Ok (if starts_with [c_slash] first_seg then [] else map chr_lit r)
-        end
+        do first_seg <- first_segment en (p_nodes p);
+        Ok (if starts_with [c_slash] first_seg then [] else map chr_lit r)
     end;
   do (body, c') <- rx_children rn (p_nodes p) c;
   Ok (root ++ body, c').
